@@ -213,6 +213,19 @@ def run(ctx, vlib):
         classes["mpstream " + str(k)] = v
     known += ms.get("known_lines", [])
     nontriv += ms.get("distinct_nontrivial", 0)
+    # known findings of C10 written in the arch family's case syntax (JSON / XML memory vs stream through the archives)
+    import arch_common
+    ak = [k for k in vlib.load_known("C10") if k.get("status") == "known" and k.get("driver") == "arch"]
+    if ak:
+        aimpl = arch_common.drivers(vlib)[0]
+        for k in ak:
+            so = vlib.run_driver(aimpl, [k["case"]], jobs=1)[0]
+            mo = vlib.run_driver(aimpl, [k.get("memory_case", k["case"])], jobs=1)[0]
+            if so.split(" ")[0] == k["implementation"].split(" ")[0] and mo != so:
+                known.append("%s: %s [stream: %s -> %s; memory: -> %s]" % (k["id"], k["what"], k["case"][:120], so[:60], mo[:60]))
+            else:
+                diffs.append(dict(driver="arch", case=k["case"], implementation=so, model=k["implementation"], judge="KNOWN-FINDING-CHANGED",
+                                  why="listed known finding %s no longer reproduces as recorded" % k["id"]))
     cs = csv_mem_vs_stream(ctx, vlib)
     failing += cs["failing"]
     classes.update(cs["classes"])
